@@ -358,6 +358,18 @@ def check_columns(case):
         size = (maxcol,) if mode == "flow" else (maxcol, maxrow)
         widths = list(cols.column_widths(size, False))
         _columns_oracle(children, wint, zero_packed, loose, d, mw, focus, maxcol, widths)
+        if n > 1:
+            # the same long-lived widget after a focus change at the same width (and back): the partition is a
+            # function of the options, the focus and the size, not of what was laid out before
+            f2 = (focus + 1) % n
+            cols.focus_position = f2
+            _columns_oracle(children, wint, zero_packed, loose, d, mw, f2, maxcol, list(cols.column_widths(size, False)))
+            cols.focus_position = focus
+            again = list(cols.column_widths(size, False))
+            if again != widths:
+                raise Violation("columns-widths-depend-on-history",
+                                f"children={children} dividechars={d} min_width={mw} maxcol={maxcol}: widths {widths} with focus "
+                                f"{focus}, {again} after moving the focus to {f2} and back")
         if not render:
             continue
         _stat("cfg:columns-render")
